@@ -50,6 +50,16 @@ Theorem C18_default_offsets :
 Proof. exact gen_rbf_offsets. Qed.
 Print Assumptions C18_default_offsets.
 
+(* offset = None means the default above for a named function and 0 for a callable; any explicit
+   offset, 0 included, is used as given *)
+Theorem C18_offset_resolution : forall (o l : R) (b : bool) (f g : R -> R),
+  gen_rbf_resolve_offset (Some o) b l = o /\
+  gen_rbf_resolve_offset None true l = l /\
+  gen_rbf_resolve_offset None false l = 0 /\
+  gen_rbf_resolve_rbf true f g = f /\ gen_rbf_resolve_rbf false f g = g.
+Proof. exact gen_rbf_resolution. Qed.
+Print Assumptions C18_offset_resolution.
+
 (* radius: offset at the centre, never below the offset, symmetric *)
 Theorem C18_radius : forall shape offset x c, 0 <= shape ->
   rbf_radius shape offset x x = offset /\ offset <= rbf_radius shape offset x c /\
